@@ -535,6 +535,13 @@ func roundTrip(v any) (*lexer.StatefulDefinition, string) {
 	return def, ""
 }
 
+// another definition whose JSON is about as long as a generated one's
+var c16Other = lexer.MustStateful(lexer.Rules{
+	"Root":  {{Name: "Open", Pattern: `<<(\w+)`, Action: lexer.Push("Body")}, {Name: "Word", Pattern: `[\pL\d]+`, Action: nil}, {Name: "ws", Pattern: `\s+`, Action: nil}},
+	"Body":  {{Name: "Close", Pattern: `\1`, Action: lexer.Pop()}, lexer.Include("Other"), {Name: "Char", Pattern: `(?s:.)`, Action: nil}},
+	"Other": {{Name: "Esc", Pattern: `\\.`, Action: nil}},
+})
+
 type c16Defs struct {
 	orig, viaDef, viaRules *lexer.StatefulDefinition
 }
@@ -581,6 +588,24 @@ func buildC16(rs *lexgen.RuleSet) (*c16Defs, string, outcome) {
 	})
 	if pmsg != "" || msg != "" {
 		return nil, "", violationf("roundtrip", "marshalling the definition: %s%s\n%s", msg, pmsg, rs.String())
+	}
+	// the bytes MarshalJSON returned are the caller's: marshalling again (this definition, another one) leaves them alone
+	pmsg = guard(func() {
+		first, err := def.MarshalJSON()
+		if err != nil {
+			msg = "MarshalJSON: " + err.Error()
+			return
+		}
+		keep := string(first)
+		_, _ = c16Other.MarshalJSON()
+		_, _ = def.MarshalJSON()
+		_, _ = c16Other.MarshalJSON()
+		if string(first) != keep {
+			msg = fmt.Sprintf("the result of MarshalJSON changed after later MarshalJSON calls:\n was %s\n now %s", keep, first)
+		}
+	})
+	if pmsg != "" || msg != "" {
+		return nil, "", violationf("roundtrip", "marshalling the definition twice: %s%s\n%s", msg, pmsg, rs.String())
 	}
 	pmsg = guard(func() {
 		d.viaRules, msg = roundTrip(rs.ToRules())
